@@ -24,9 +24,24 @@ from core import Result
 ID = 'C03'
 MODULE = 'PyTough.Props.C03'
 TARGETS = ['PyTough.Props.C03', 'drv_c03']
-THEOREMS = ['Props.C03.' + t for t in []]
-LEVEL_TEXT = 'see Props/C03.lean'
-LEVEL_NOTE = ''
+THEOREMS = ['Props.C03.' + t for t in [
+    'table_is_current', 'geo_roundtrip', 'reread_unique', 'header_preserved', 'nodes_preserved', 'columns_preserved',
+    'connections_preserved', 'layers_preserved', 'surfaces_preserved', 'wells_preserved', 'geo_write_fixpoint_partial',
+    'rounding_idempotent', 'feet_roundtrip', 'rjust_names_safe', 'left_justified_name_changes',
+    'layer_centre_zero_lost', 'second_file_differs']]
+LEVEL_TEXT = ('Proof: Lean theorems about an executable model of mulgrid.write / mulgrid(file): for every well-formed geometry (decidable WF = the '
+              "property's quantifier: right-justified names, options in range, values within the 10-column limit, >= 1 layer) read(write g) = canonGeo g "
+              '(geo_roundtrip, full strength) with corollaries for header options, nodes, columns, connections, layers, surfaces, wells; FEET files hold '
+              'feet and re-read to metres (feet_roundtrip); right-justified names are inverse-safe (rjust_names_safe) and a left-justified one is not. '
+              'PARTIAL: the layer-centre clause and the byte-for-byte second write carry the decidable hypothesis LayerCentresKept (KNOWN FINDING '
+              'layer-centre-zero-recomputed: proved necessary by the model witnesses layer_centre_zero_lost / second_file_differs, replayed on the real code); '
+              'geo_write_fixpoint_partial also assumes SizesStable (the two 10.2e header sizes reprint identically: evaluated per geometry, not proved in general). '
+              'Tied to /repo on every run by the regenerated format table (table_is_current is re-evaluated) and by byte-for-byte write / canonical-dump read '
+              'correspondence on generated and shipped geometries.')
+LEVEL_NOTE = ('Trusted: Lean kernel (+propext, Classical.choice, Quot.sound); hand-written Model/GeoFile.lean and Model/Fixed.lean (tied by correspondence); '
+              'A-float (exact decimals/rationals in the model; double rounding of float(), x*0.3048, x/0.3048 outside); name-length/unit-scale tables hand-copied. '
+              'Not proved: identity of the derived block/connection name lists (evaluated by the oracle and the read facet under StableSurfaces); '
+              'closeness of roundE to its argument (C02 proves it for the record layer).')
 TECHNIQUE = ('Lean 4 proof over an executable model of the geometry file reader/writer (exact decimals and rationals) + '
              'byte-for-byte / canonical-dump correspondence with the real mulgrid.write / mulgrid(file) + direct round-trip oracle')
 ASSUMPTIONS = [
@@ -688,6 +703,9 @@ CORPUS = [
     # the witness of the known finding (also proved in Props/C03.lean: centre_zero_witness)
     dict(base='rect', style='fixed', xs=[10.0, 20.5], ys=[15.0], zs=[2.006, 3.0], origin=[0.0, 0.0, 1.006], conv=0, justify='r', case=None,
          spaces=True, atm=0, block_order=None, unit='', perm_angle=None, atm_volume=None, atm_conn=None, surf=[0.0, 0], centres=[0.0, 0], wells=[0, 0, False]),
+    # second witness (Props/C03.lean second_file_differs): centre -0.002 is written '-0.00', re-read as the default +0.0
+    dict(base='rect', style='fixed', xs=[10.0], ys=[15.0], zs=[2.004, 2.996], origin=[0.0, 0.0, 1.0], conv=0, justify='r', case=None,
+         spaces=True, atm=0, block_order=None, unit='', perm_angle=None, atm_volume=None, atm_conn=None, surf=[0.0, 0], centres=[0.0, 0], wells=[0, 0, False]),
     dict(base='rect', style='fixed', xs=[100.0] * 3, ys=[150.0] * 2, zs=[10.0] * 3, origin=[0.0, 0.0, 0.0], conv=0, justify='r', case=None,
          spaces=True, atm=2, block_order=None, unit='FEET ', perm_angle=30.0, atm_volume=None, atm_conn=None, surf=[0.6, 5], centres=[0.5, 7], wells=[2, 3, False]),
     dict(base='rect', style='fixed', xs=[0.25, 0.5], ys=[1.0], zs=[0.25, 0.25], origin=[-0.125, 9999990.0, -0.001], conv=3, justify='r', case='u',
@@ -756,7 +774,8 @@ def run(ctx, only_oracle=False, n=None, seed_shift=0):
     fcan = res.facet('geo_canon')
     hyp_wf = res.hyp.setdefault('WF g (hypothesis of geo_roundtrip and its corollaries)', [0, 0])
     hyp_lck = res.hyp.setdefault('LayerCentresKept g', [0, 0])
-    hyp_st = res.hyp.setdefault('StableSurfaces g (hypothesis of names_lists_preserved)', [0, 0])
+    hyp_st = res.hyp.setdefault('StableSurfaces g (name lists compared by the oracle only then)', [0, 0])
+    hyp_sz = res.hyp.setdefault('SizesStable g (hypothesis of geo_write_fixpoint_partial)', [0, 0])
     if n is None: n = ctx.n(70, 1500)
     rcs = recipes(ctx, n) if not seed_shift else [gen_recipe(ctx.rng('search%d' % seed_shift), True, i) for i in range(n)]
     rng_mal = ctx.rng('malformed')
@@ -827,7 +846,7 @@ def run(ctx, only_oracle=False, n=None, seed_shift=0):
             continue
         reqs.append('write ' + enc)
         meta.append(('write', rc, real_w, None))
-        # the theorem statement itself, evaluated in the model: read (write g) = canonGeo g when WF and LayerCentresKept
+        # the theorem statement itself, evaluated in the model: read (write g) = canonGeo g when WF g
         reqs += ['wf ' + enc, 'rw ' + enc, 'canon ' + enc]
         meta += [('wf', rc, inq, None), ('rw', rc, None, None), ('canon', rc, None, None)]
         if not real_w.startswith('exc '):
@@ -882,15 +901,15 @@ def run(ctx, only_oracle=False, n=None, seed_shift=0):
             if kind == 'wf':
                 w = reply.split()
                 if w[0] != 'ok': raise RuntimeError('driver wf: ' + reply[:80])
-                last_wf = (w[1] == '1', w[2] == '1', w[3] == '1')
-                for h, ok in zip((hyp_wf, hyp_lck, hyp_st), last_wf):
+                last_wf = (w[1] == '1', w[2] == '1', w[3] == '1', w[4] == '1')
+                for h, ok in zip((hyp_wf, hyp_lck, hyp_st, hyp_sz), last_wf):
                     h[1] += 1
                     h[0] += int(ok)
                 if real and not last_wf[0]: res.count('in quantifier but outside WF')
             elif kind == 'rw':
                 last_rw = reply
             elif kind == 'canon':
-                if last_wf[0] and last_wf[1]:
+                if last_wf[0]:
                     fcan['cases'] += 1
                     if last_rw != reply:
                         fcan['disagreements'] += 1
